@@ -12,7 +12,7 @@ m = {
     "setup_cmd": "./setup.sh",
     "hooks": {
         "guard": "verif",
-        "enable": "go build -tags verif (add-only *_verif.go files in /repo guarded by //go:build verif)",
+        "enable": "go build -tags verif; no source change to /repo is needed at present (source_commits is empty). The fine-grained phase builds a second harness binary with `go build -tags verif,vfine -overlay build/overlay.json`: copies of /repo's non-test sources (made on every run from the working tree, kept under /verif/build) in which the import \"sync\" reads sync \"verif/harness/vsync\"; /repo itself is never modified",
         "baseline_off_cmd": "cd /repo && GOFLAGS=-mod=mod go test -json -vet=off -count=1 -timeout 25m ./...",
         "source_commits": HOOK_COMMITS,
         "add_only": True,
